@@ -66,9 +66,13 @@ def encode_content(payload, coding, rng):
             f.write(payload)
         return buf.getvalue()
     if coding == 'deflate-zlib':
-        return zlib.compress(payload, rng.choice((1, 6, 9)))
+        # all legal window sizes (header bytes 0x18..0x78), levels and strategies
+        c = zlib.compressobj(rng.choice((0, 1, 6, 9)), zlib.DEFLATED, rng.choice((15, 15, 9, 10, 12, 14)), rng.choice((8, 1, 9)),
+                             rng.choice((zlib.Z_DEFAULT_STRATEGY, zlib.Z_FILTERED, zlib.Z_HUFFMAN_ONLY, zlib.Z_FIXED)))
+        return c.compress(payload) + c.flush()
     if coding == 'deflate-raw':
-        c = zlib.compressobj(rng.choice((1, 6, 9)), zlib.DEFLATED, -zlib.MAX_WBITS)
+        c = zlib.compressobj(rng.choice((0, 1, 6, 9)), zlib.DEFLATED, -rng.choice((15, 15, 9, 12)), rng.choice((8, 1, 9)),
+                             rng.choice((zlib.Z_DEFAULT_STRATEGY, zlib.Z_HUFFMAN_ONLY, zlib.Z_FIXED)))
         return c.compress(payload) + c.flush()
     return payload
 
@@ -244,6 +248,12 @@ def gen_response(tape, method='GET', allow_truncate=False, allow_surplus=True, a
         else:
             head += fmt_field(tape, name, value, lf_only)
         hints.append(len(head))
+    if allow_fold and tape.chance(1, 12, 'fold.empty'):
+        # obs-fold whose continuation line holds only whitespace: still part of the header block
+        head += b'X-Note: value' + eol + tape.choice((b' ', b'\t', b'  \t '), 'fold.empty.ws') + eol
+        hints.append(len(head))
+        if tape.chance(1, 2, 'fold.empty.more'):
+            head += b'X-After: fold' + eol
     hints.append(len(head) + 1)
     head += eol
     r.head = bytes(head)
